@@ -736,6 +736,8 @@ namespace
             if (FD->getTemplateInstantiationPattern())
                 fn["instantiated"] = true;
             std::string kind = "free";
+            if (!FD->isExternallyVisible())
+                fn["internal"] = true; // static / unnamed namespace: a helper of this translation unit only
             if (auto* MD = dyn_cast<CXXMethodDecl>(FD))
             {
                 kind      = "method";
@@ -746,6 +748,8 @@ namespace
                     fn["constm"] = true;
                 if (MD->isVirtual())
                     fn["virtual"] = true;
+                if (MD->getAccess() == AS_private || MD->getAccess() == AS_protected)
+                    fn["nonpublic"] = true;
                 if (MD->getParent()->isLambda())
                 {
                     kind = "lambda";
